@@ -461,7 +461,11 @@ def judge(label, prefix, runs, scs, cat, pid):
                     solo[(ac, plan_of(r.name))] = (r.name, seq)
 
         def same(a, b):
-            if a is None or b is None or isinstance(a, str) or isinstance(b, str):
+            # a record that did not come out of one of the two runs (a datagram the kernel dropped on a busy machine)
+            # decides nothing about interference: only records present in both runs are compared
+            if isinstance(a, str) or isinstance(b, str):
+                return True
+            if a is None or b is None:
                 return a == b
             return abs(a[0] - b[0]) < 1e-7 and abs(a[1] - b[1]) < 1e-7
         for r in started:
